@@ -163,6 +163,7 @@ class Env(object):
 
     def api(self, name, fn, *args, **kw):
         expect = kw.pop("expect", ())
+        notify = kw.pop("notify", True)
         rec = [name] + [jsonable(a) for a in args]
         self.calls.append(rec)
         try:
@@ -178,8 +179,9 @@ class Env(object):
                 call=name,
                 exc=type(e).__name__,
             )
-        for m in self.monitors:
-            m.after_call(self, name)
+        if notify:
+            for m in self.monitors:
+                m.after_call(self, name)
         return r
 
     def status(self):
@@ -201,7 +203,7 @@ class Env(object):
         self.log.append("REQ:" + status)
         if status in (S.CANCELING, S.CANCELED) and not self.cancel_req:
             self.cancel_from = self.status()
-        self.api("request_workflow_status", self.c.request_workflow_status, status, expect=expect)
+        self.api("request_workflow_status", self.c.request_workflow_status, status, expect=expect, notify=False)
         if status in (S.PAUSING, S.PAUSED):
             self.pause_req = True
             self.ever_pause_req = True
@@ -209,6 +211,8 @@ class Env(object):
             self.cancel_req = True
         if status in (S.RESUMING, S.RUNNING):
             self.pause_req = False
+        for m in self.monitors:
+            m.after_call(self, "request_workflow_status")
 
     def try_request(self, status):
         """Issue a status request that the lifecycle may reject. Returns the exception or None."""
@@ -344,7 +348,7 @@ class Env(object):
             for k, (cond, pubs, do) in enumerate(self.wf.transitions(act.task)):
                 for pv in pubs:
                     if isinstance(pv, str):
-                        result["t%d_%s" % (k, pv)] = "%s#%d.%d.%s" % (act.task, act.n, k, pv)
+                        result["t%d_%s" % (k, pv)] = "%s#v%d.%d.%s" % (act.label(), act.visit, k, pv)
         act.bits = bits
         return status, result
 
@@ -445,7 +449,7 @@ def completion_script(env):
     return list(env.script)
 
 
-def run_script(env, script):
+def run_script(env, script, drain=True):
     """Drive env through the given completion order with no control requests."""
     env.start()
     for label, visit, status, result in script:
@@ -458,6 +462,15 @@ def run_script(env, script):
             raise Unschedulable("%s#%d is not in flight in the twin run (in flight: %s) | twin history: %s" % (label, visit, [a.label() for a in env.inflight], " ".join(env.log)))
         env.report(idx, status, result)
         env.step += 1
+        env.offers()
+    # actions that only this run started (the other run was held back and then finished
+    # without them) are drained with a canonical successful report
+    env.extra_work = [a.label() for a in env.inflight]
+    guard = 0
+    while env.inflight and drain and guard < 12:
+        guard += 1
+        act = env.inflight[0]
+        env.report(0, S.SUCCEEDED, env.policy.item_value(act.item) if act.item is not None else {"c0": False, "c1": False})
         env.offers()
     complete = not env.inflight
     if complete:
